@@ -2,25 +2,25 @@
 From SS Require Import Model.Deser Proofs.LiveBasic Proofs.MultiDoc.
 Local Open Scope N_scope.
 
-Theorem C11_single_rejects_second : forall fuel o t items v s r e s' r',
-  deser fuel (eo_cfg o) false t (SLive (live_new (eo_budget o) false (eo_limits o) false) items) = DOk v (SLive s r) ->
+Theorem C11_single_rejects_second : forall fuel o t items v s r op e s' r',
+  deser fuel (eo_cfg o) false t (SLive (live_new (eo_budget o) false (eo_limits o) false) items 0) = DOk v (SLive s r op) ->
   live_peek s r = Yield e s' r' ->
   from_str_model fuel o t items = OErr (Err E_MultipleDocuments (lv_last s')).
 Proof. exact single_rejects_second. Qed.
-Check C11_single_rejects_second : forall fuel o t items v s r e s' r',
-  deser fuel (eo_cfg o) false t (SLive (live_new (eo_budget o) false (eo_limits o) false) items) = DOk v (SLive s r) ->
+Check C11_single_rejects_second : forall fuel o t items v s r op e s' r',
+  deser fuel (eo_cfg o) false t (SLive (live_new (eo_budget o) false (eo_limits o) false) items 0) = DOk v (SLive s r op) ->
   live_peek s r = Yield e s' r' ->
   from_str_model fuel o t items = OErr (Err E_MultipleDocuments (lv_last s')).
 Print Assumptions C11_single_rejects_second.
 
 Theorem C11_single_accepts_only_at_end : forall fuel o t items v,
   from_str_model fuel o t items = OOk v ->
-  exists s r, deser fuel (eo_cfg o) false t (SLive (live_new (eo_budget o) false (eo_limits o) false) items) = DOk v (SLive s r)
+  exists s r op, deser fuel (eo_cfg o) false t (SLive (live_new (eo_budget o) false (eo_limits o) false) items 0) = DOk v (SLive s r op)
     /\ (forall e s' r', live_peek s r <> Yield e s' r').
 Proof. exact single_accepts_only_at_end. Qed.
 Check C11_single_accepts_only_at_end : forall fuel o t items v,
   from_str_model fuel o t items = OOk v ->
-  exists s r, deser fuel (eo_cfg o) false t (SLive (live_new (eo_budget o) false (eo_limits o) false) items) = DOk v (SLive s r)
+  exists s r op, deser fuel (eo_cfg o) false t (SLive (live_new (eo_budget o) false (eo_limits o) false) items 0) = DOk v (SLive s r op)
     /\ (forall e s' r', live_peek s r <> Yield e s' r').
 Print Assumptions C11_single_accepts_only_at_end.
 
@@ -43,23 +43,23 @@ Print Assumptions C11_batch_skips_null_document.
 
 Theorem C11_batch_collects_in_order : forall f o t s rest e s' rest' acc v s2 r2,
   live_peek s rest = Yield e s' rest' -> ev_scalar_nullish e = false ->
-  deser f (eo_cfg o) false t (SLive s' rest') = DOk v (SLive s2 r2) ->
+  deser f (eo_cfg o) false t (SLive s' rest' 0) = DOk v (SLive s2 r2 0) ->
   from_multiple_loop (S f) o t s rest acc = from_multiple_loop f o t s2 r2 (v :: acc).
 Proof. exact batch_collects. Qed.
 Check C11_batch_collects_in_order : forall f o t s rest e s' rest' acc v s2 r2,
   live_peek s rest = Yield e s' rest' -> ev_scalar_nullish e = false ->
-  deser f (eo_cfg o) false t (SLive s' rest') = DOk v (SLive s2 r2) ->
+  deser f (eo_cfg o) false t (SLive s' rest' 0) = DOk v (SLive s2 r2 0) ->
   from_multiple_loop (S f) o t s rest acc = from_multiple_loop f o t s2 r2 (v :: acc).
 Print Assumptions C11_batch_collects_in_order.
 
 Theorem C11_batch_first_error_wins : forall f o t s rest e s' rest' acc er,
   live_peek s rest = Yield e s' rest' -> ev_scalar_nullish e = false ->
-  deser f (eo_cfg o) false t (SLive s' rest') = DErr er ->
+  deser f (eo_cfg o) false t (SLive s' rest' 0) = DErr er ->
   from_multiple_loop (S f) o t s rest acc = MErr er.
 Proof. exact batch_first_error_wins. Qed.
 Check C11_batch_first_error_wins : forall f o t s rest e s' rest' acc er,
   live_peek s rest = Yield e s' rest' -> ev_scalar_nullish e = false ->
-  deser f (eo_cfg o) false t (SLive s' rest') = DErr er ->
+  deser f (eo_cfg o) false t (SLive s' rest' 0) = DErr er ->
   from_multiple_loop (S f) o t s rest acc = MErr er.
 Print Assumptions C11_batch_first_error_wins.
 
@@ -79,13 +79,13 @@ Print Assumptions C11_iterator_resumes_clean.
 
 Theorem C11_iterator_ends_after_unrecoverable_error : forall f o t s rest e s' rest' er,
   live_peek s rest = Yield e s' rest' -> ev_scalar_nullish e = false ->
-  deser f (eo_cfg o) false t (SLive s' rest') = DErr er ->
+  deser f (eo_cfg o) false t (SLive s' rest' 0) = DErr er ->
   fst (fst (skip_to_next_document s' (resume_point er rest'))) = false ->
   read_iter (S f) o t s rest = inl [IErr er].
 Proof. exact iterator_ends_when_skip_fails. Qed.
 Check C11_iterator_ends_after_unrecoverable_error : forall f o t s rest e s' rest' er,
   live_peek s rest = Yield e s' rest' -> ev_scalar_nullish e = false ->
-  deser f (eo_cfg o) false t (SLive s' rest') = DErr er ->
+  deser f (eo_cfg o) false t (SLive s' rest' 0) = DErr er ->
   fst (fst (skip_to_next_document s' (resume_point er rest'))) = false ->
   read_iter (S f) o t s rest = inl [IErr er].
 Print Assumptions C11_iterator_ends_after_unrecoverable_error.
